@@ -134,6 +134,9 @@ type Spec[C any] struct {
 	Exhaustive       []string // names of sub-spaces enumerated completely per case
 	// Workers overrides the worker count (0 = NumCPU).
 	Workers int
+	// Procs: run shards as child processes instead of goroutines (for systems
+	// under test with process-global state).
+	Procs bool
 	// Extra lets a check add fields to coverage after the batch.
 	Extra func(cov map[string]any)
 	// Pre runs once before the batch (oracle self checks); a non-nil error is
@@ -309,180 +312,62 @@ func (ci *checkImpl[C]) Batch(tier string, seed uint64) int {
 	if workers < 1 {
 		workers = 1
 	}
-	deadline := s.RunDeadline
-	if deadline == 0 {
-		deadline = 60 * time.Second
-	}
-	if tier == "thorough" {
-		deadline *= 4
-	}
 
-	slowMS := 0
-	if v := os.Getenv("VERIF_SLOW"); v != "" {
-		fmt.Sscanf(v, "%d", &slowMS)
-	}
-	var next int64 = -1
-	var stop int32
-	var mu sync.Mutex
-	counters := map[string]int64{}
-	shapes := map[uint64]struct{}{}
-	cases := map[uint64]int64{} // case digest -> nontrivial count
-	var batchDigest [32]byte
-	var evals, completed int64
-	var founds []found[C]
-	var infraErr error
-	samples := []json.RawMessage{}
-
-	type slot struct {
-		start atomic.Int64 // unix nano, 0 = idle
-		idx   atomic.Int64
-		c     atomic.Pointer[C]
-	}
-	slots := make([]slot, workers)
-
-	var wg sync.WaitGroup
-	for w := 0; w < workers; w++ {
-		wg.Add(1)
-		go func(w int) {
-			defer wg.Done()
-			lc := map[string]int64{}
-			ls := map[uint64]struct{}{}
-			lcases := map[uint64]int64{}
-			var ld [32]byte
-			var le, ldone int64
-			for atomic.LoadInt32(&stop) == 0 {
-				idx := int(atomic.AddInt64(&next, 1))
-				if idx >= n {
-					break
-				}
-				if time.Since(t0) > budget {
-					break
-				}
-				rs := Mix(seed, Tag(s.Property), uint64(idx))
-				c := s.Gen(NewRng(rs), tier, idx)
-				x := newCtx(false, tier)
-				slots[w].idx.Store(int64(idx))
-				slots[w].c.Store(c)
-				slots[w].start.Store(time.Now().UnixNano())
-				tRun := time.Now()
-				v, ierr := ci.safeRun(c, x)
-				slots[w].start.Store(0)
-				if slowMS > 0 && time.Since(tRun) > time.Duration(slowMS)*time.Millisecond {
-					b, _ := json.Marshal(c)
-					if len(b) > 700 {
-						b = b[:700]
-					}
-					fmt.Fprintf(os.Stderr, "slow run %d: %v evals=%d %s\n", idx, time.Since(tRun).Round(time.Millisecond), x.evals, b)
-				}
-				if ierr != nil {
-					mu.Lock()
-					if infraErr == nil {
-						infraErr = fmt.Errorf("run %d: %w", idx, ierr)
-						b, _ := json.Marshal(c)
-						infraErr = fmt.Errorf("%w\nscenario: %s", infraErr, b)
-					}
-					mu.Unlock()
-					atomic.StoreInt32(&stop, 1)
-					break
-				}
-				for k, val := range x.Counters {
-					lc[k] += val
-				}
-				ls[x.shape.Sum64()] = struct{}{}
-				ev := x.evals
-				if ev == 0 {
-					ev = 1
-				}
-				le += ev
-				ldone++
-				cd := caseDigest(c)
-				if x.nontriv > 0 {
-					if old, ok := lcases[cd]; !ok || x.nontriv > old {
-						lcases[cd] = x.nontriv
-					}
-				}
-				// order-independent batch digest
-				var ib [8]byte
-				binary.LittleEndian.PutUint64(ib[:], uint64(idx))
-				hh := sha256.New()
-				hh.Write(ib[:])
-				hh.Write(x.h.Sum(nil))
-				if v != nil {
-					hh.Write([]byte(v.key()))
-				}
-				sum := hh.Sum(nil)
-				for i := range ld {
-					ld[i] ^= sum[i]
-				}
-				if idx < 3 || v != nil {
-					mu.Lock()
-					if idx < 3 {
-						b, _ := json.Marshal(c)
-						samples = append(samples, b)
-					}
-					if v != nil {
-						founds = append(founds, found[C]{idx, rs, c, v})
-						if !known[v.key()] {
-							atomic.StoreInt32(&stop, 1)
-						}
-					}
-					mu.Unlock()
-				}
-			}
-			mu.Lock()
-			for k, val := range lc {
-				counters[k] += val
-			}
-			for k := range ls {
-				shapes[k] = struct{}{}
-			}
-			for k, val := range lcases {
-				if old, ok := cases[k]; !ok || val > old {
-					cases[k] = val
-				}
-			}
-			for i := range batchDigest {
-				batchDigest[i] ^= ld[i]
-			}
-			evals += le
-			completed += ldone
-			mu.Unlock()
-		}(w)
-	}
-
-	// watchdog
-	done := make(chan struct{})
-	go func() { wg.Wait(); close(done) }()
-	tick := time.NewTicker(500 * time.Millisecond)
-	defer tick.Stop()
-wait:
-	for {
-		select {
-		case <-done:
-			break wait
-		case <-tick.C:
-			now := time.Now().UnixNano()
-			for w := range slots {
-				st := slots[w].start.Load()
-				if st != 0 && time.Duration(now-st) > deadline {
-					c := slots[w].c.Load()
-					idx := int(slots[w].idx.Load())
-					v := Viol("stall", "run-deadline", "run %d exceeded the per-run deadline of %v", idx, deadline)
-					path := ci.writeReplay(seed, idx, Mix(seed, Tag(s.Property), uint64(idx)), c, v, false)
-					if s.StallIsViolation {
-						fmt.Printf("VIOLATION property=%s replay=%s\n", s.Property, path)
-						fmt.Printf("  class=stall detail=%s\n", v.Detail)
-						return 1
-					}
-					fmt.Printf("INFRA: watchdog: %s (scenario saved to %s)\n", v.Detail, path)
-					return 2
-				}
-			}
+	// child of a process-sharded batch: run one shard single-threaded and
+	// hand the result to the parent
+	if sh := os.Getenv("VERIF_SHARD"); sh != "" {
+		var i, m int
+		fmt.Sscanf(sh, "%d/%d", &i, &m)
+		r := ci.runShard(tier, seed, i, m, 1, n, budget, known, t0)
+		b, _ := json.Marshal(r)
+		if err := os.WriteFile(os.Getenv("VERIF_SHARD_OUT"), b, 0o644); err != nil {
+			fmt.Printf("INFRA: %v\n", err)
+			return 2
 		}
+		return 0
 	}
-	if infraErr != nil {
-		fmt.Printf("INFRA: %v\n", infraErr)
+
+	var merged *shardResult
+	if s.Procs {
+		merged = ci.runProcs(tier, seed, workers)
+	} else {
+		merged = ci.runShard(tier, seed, 0, 1, workers, n, budget, known, t0)
+	}
+	if merged.Stall != nil {
+		f := merged.Stall
+		var c C
+		json.Unmarshal(f.Case, &c)
+		path := ci.writeReplay(seed, f.Idx, f.Seed, &c, f.V, false)
+		if s.StallIsViolation {
+			fmt.Printf("VIOLATION property=%s replay=%s\n", s.Property, path)
+			fmt.Printf("  class=stall detail=%s\n", f.V.Detail)
+			return 1
+		}
+		fmt.Printf("INFRA: watchdog: %s (scenario saved to %s)\n", f.V.Detail, path)
 		return 2
+	}
+	if merged.Infra != "" {
+		fmt.Printf("INFRA: %s\n", merged.Infra)
+		return 2
+	}
+	counters := merged.Counters
+	shapes := map[uint64]struct{}{}
+	for _, k := range merged.Shapes {
+		shapes[k] = struct{}{}
+	}
+	cases := merged.Cases
+	var batchDigest [32]byte
+	copy(batchDigest[:], merged.Digest)
+	evals, completed := merged.Evals, merged.Completed
+	samples := merged.Samples
+	var founds []found[C]
+	for _, f := range merged.Founds {
+		c := new(C)
+		if err := json.Unmarshal(f.Case, c); err != nil {
+			fmt.Printf("INFRA: cannot re-read a failing scenario: %v\n", err)
+			return 2
+		}
+		founds = append(founds, found[C]{f.Idx, f.Seed, c, f.V})
 	}
 
 	sort.Slice(founds, func(i, j int) bool { return founds[i].idx < founds[j].idx })
@@ -586,6 +471,282 @@ wait:
 		return 2
 	}
 	return exit
+}
+
+
+type foundJSON struct {
+	Idx  int             `json:"idx"`
+	Seed uint64          `json:"seed"`
+	Case json.RawMessage `json:"case"`
+	V    *Violation      `json:"v"`
+}
+
+// shardResult is what one shard (goroutine pool or child process) reports.
+type shardResult struct {
+	Counters  map[string]int64  `json:"counters"`
+	Shapes    []uint64          `json:"shapes"`
+	Cases     map[uint64]int64  `json:"cases"`
+	Digest    []byte            `json:"digest"`
+	Evals     int64             `json:"evals"`
+	Completed int64             `json:"completed"`
+	Founds    []foundJSON       `json:"founds"`
+	Samples   []json.RawMessage `json:"samples"`
+	Infra     string            `json:"infra,omitempty"`
+	Stall     *foundJSON        `json:"stall,omitempty"`
+}
+
+// runProcs runs the batch as child processes (one shard each). It is used by
+// engines whose system under test has process-global state (gxz's flag set,
+// logger and simulated OS), so that one process runs one simulation at a time.
+func (ci *checkImpl[C]) runProcs(tier string, seed uint64, procs int) *shardResult {
+	self, err := os.Executable()
+	if err != nil {
+		return &shardResult{Infra: err.Error()}
+	}
+	dir, err := os.MkdirTemp("", "verif-shards-")
+	if err != nil {
+		return &shardResult{Infra: err.Error()}
+	}
+	defer os.RemoveAll(dir)
+	type out struct {
+		r   *shardResult
+		err error
+	}
+	res := make([]out, procs)
+	var wg sync.WaitGroup
+	for i := 0; i < procs; i++ {
+		wg.Add(1)
+		go func(i int) {
+			defer wg.Done()
+			of := filepath.Join(dir, fmt.Sprintf("shard-%d.json", i))
+			cmd := exec.Command(self, "check", ci.s.Property, "--tier", tier, "--seed", fmt.Sprint(seed))
+			cmd.Env = append(os.Environ(), fmt.Sprintf("VERIF_SHARD=%d/%d", i, procs), "VERIF_SHARD_OUT="+of)
+			var buf bytes.Buffer
+			cmd.Stdout, cmd.Stderr = &buf, &buf
+			if err := cmd.Run(); err != nil {
+				res[i].err = fmt.Errorf("shard %d: %v\n%s", i, err, buf.String())
+				return
+			}
+			b, err := os.ReadFile(of)
+			if err != nil {
+				res[i].err = fmt.Errorf("shard %d: %v\n%s", i, err, buf.String())
+				return
+			}
+			r := &shardResult{}
+			if err := json.Unmarshal(b, r); err != nil {
+				res[i].err = err
+				return
+			}
+			res[i].r = r
+		}(i)
+	}
+	wg.Wait()
+	m := &shardResult{Counters: map[string]int64{}, Cases: map[uint64]int64{}, Digest: make([]byte, 32)}
+	seen := map[uint64]struct{}{}
+	for i := range res {
+		if res[i].err != nil {
+			m.Infra = res[i].err.Error()
+			return m
+		}
+		r := res[i].r
+		if r.Infra != "" && m.Infra == "" {
+			m.Infra = r.Infra
+		}
+		if r.Stall != nil && m.Stall == nil {
+			m.Stall = r.Stall
+		}
+		for k, v := range r.Counters {
+			m.Counters[k] += v
+		}
+		for _, k := range r.Shapes {
+			if _, ok := seen[k]; !ok {
+				seen[k] = struct{}{}
+				m.Shapes = append(m.Shapes, k)
+			}
+		}
+		for k, v := range r.Cases {
+			if old, ok := m.Cases[k]; !ok || v > old {
+				m.Cases[k] = v
+			}
+		}
+		for j := range m.Digest {
+			m.Digest[j] ^= r.Digest[j]
+		}
+		m.Evals += r.Evals
+		m.Completed += r.Completed
+		m.Founds = append(m.Founds, r.Founds...)
+		m.Samples = append(m.Samples, r.Samples...)
+	}
+	if len(m.Samples) > 3 {
+		m.Samples = m.Samples[:3]
+	}
+	return m
+}
+
+// runShard executes the runs idx with idx %% nshards == shard on a pool of
+// worker goroutines.
+func (ci *checkImpl[C]) runShard(tier string, seed uint64, shard, nshards, workers, n int, budget time.Duration, known map[string]bool, t0 time.Time) *shardResult {
+	s := ci.s
+	deadline := s.RunDeadline
+	if deadline == 0 {
+		deadline = 60 * time.Second
+	}
+	if tier == "thorough" {
+		deadline *= 4
+	}
+	slowMS := 0
+	if v := os.Getenv("VERIF_SLOW"); v != "" {
+		fmt.Sscanf(v, "%d", &slowMS)
+	}
+	out := &shardResult{Counters: map[string]int64{}, Cases: map[uint64]int64{}, Digest: make([]byte, 32)}
+	shapes := map[uint64]struct{}{}
+	var next int64 = -1
+	var stop int32
+	var mu sync.Mutex
+	type slot struct {
+		start atomic.Int64
+		idx   atomic.Int64
+		c     atomic.Pointer[C]
+	}
+	slots := make([]slot, workers)
+	var wg sync.WaitGroup
+	for w := 0; w < workers; w++ {
+		wg.Add(1)
+		go func(w int) {
+			defer wg.Done()
+			lc := map[string]int64{}
+			ls := map[uint64]struct{}{}
+			lcases := map[uint64]int64{}
+			var ld [32]byte
+			var le, ldone int64
+			for atomic.LoadInt32(&stop) == 0 {
+				idx := int(atomic.AddInt64(&next, 1))*nshards + shard
+				if idx >= n {
+					break
+				}
+				if time.Since(t0) > budget {
+					break
+				}
+				rs := Mix(seed, Tag(s.Property), uint64(idx))
+				c := s.Gen(NewRng(rs), tier, idx)
+				x := newCtx(false, tier)
+				slots[w].idx.Store(int64(idx))
+				slots[w].c.Store(c)
+				slots[w].start.Store(time.Now().UnixNano())
+				tRun := time.Now()
+				v, ierr := ci.safeRun(c, x)
+				slots[w].start.Store(0)
+				if slowMS > 0 && time.Since(tRun) > time.Duration(slowMS)*time.Millisecond {
+					b, _ := json.Marshal(c)
+					if len(b) > 700 {
+						b = b[:700]
+					}
+					fmt.Fprintf(os.Stderr, "slow run %d: %v evals=%d %s\n", idx, time.Since(tRun).Round(time.Millisecond), x.evals, b)
+				}
+				if ierr != nil {
+					mu.Lock()
+					if out.Infra == "" {
+						b, _ := json.Marshal(c)
+						out.Infra = fmt.Sprintf("run %d: %v\nscenario: %s", idx, ierr, b)
+					}
+					mu.Unlock()
+					atomic.StoreInt32(&stop, 1)
+					break
+				}
+				for k, val := range x.Counters {
+					lc[k] += val
+				}
+				ls[x.shape.Sum64()] = struct{}{}
+				ev := x.evals
+				if ev == 0 {
+					ev = 1
+				}
+				le += ev
+				ldone++
+				cd := caseDigest(c)
+				if x.nontriv > 0 {
+					if old, ok := lcases[cd]; !ok || x.nontriv > old {
+						lcases[cd] = x.nontriv
+					}
+				}
+				var ib [8]byte
+				binary.LittleEndian.PutUint64(ib[:], uint64(idx))
+				hh := sha256.New()
+				hh.Write(ib[:])
+				hh.Write(x.h.Sum(nil))
+				if v != nil {
+					hh.Write([]byte(v.key()))
+				}
+				sum := hh.Sum(nil)
+				for i := range ld {
+					ld[i] ^= sum[i]
+				}
+				if idx < 3 || v != nil {
+					mu.Lock()
+					b, _ := json.Marshal(c)
+					if idx < 3 {
+						out.Samples = append(out.Samples, b)
+					}
+					if v != nil {
+						out.Founds = append(out.Founds, foundJSON{idx, rs, b, v})
+						if !known[v.key()] {
+							atomic.StoreInt32(&stop, 1)
+						}
+					}
+					mu.Unlock()
+				}
+			}
+			mu.Lock()
+			for k, val := range lc {
+				out.Counters[k] += val
+			}
+			for k := range ls {
+				shapes[k] = struct{}{}
+			}
+			for k, val := range lcases {
+				if old, ok := out.Cases[k]; !ok || val > old {
+					out.Cases[k] = val
+				}
+			}
+			for i := range out.Digest {
+				out.Digest[i] ^= ld[i]
+			}
+			out.Evals += le
+			out.Completed += ldone
+			mu.Unlock()
+		}(w)
+	}
+	done := make(chan struct{})
+	go func() { wg.Wait(); close(done) }()
+	tick := time.NewTicker(500 * time.Millisecond)
+	defer tick.Stop()
+wait:
+	for {
+		select {
+		case <-done:
+			break wait
+		case <-tick.C:
+			now := time.Now().UnixNano()
+			for w := range slots {
+				st := slots[w].start.Load()
+				if st != 0 && time.Duration(now-st) > deadline {
+					c := slots[w].c.Load()
+					idx := int(slots[w].idx.Load())
+					b, _ := json.Marshal(c)
+					v := Viol("stall", "run-deadline", "run %d exceeded the per-run deadline of %v", idx, deadline)
+					mu.Lock()
+					out.Stall = &foundJSON{idx, Mix(seed, Tag(s.Property), uint64(idx)), b, v}
+					r := *out
+					mu.Unlock()
+					return &r
+				}
+			}
+		}
+	}
+	for k := range shapes {
+		out.Shapes = append(out.Shapes, k)
+	}
+	return out
 }
 
 func runPre(pre func(string) error, tier string) (err error) {
